@@ -91,6 +91,20 @@ def run_seq(args):
             ezsp.add_callback(app.ezsp_callback_handler)        # as start_network does
             app.packet_received = lambda pkt: None
         for o in ["ok"] * prefix + list(seq):
+            if o == "cancel":
+                # the caller of the feed is cancelled while the keep-alive is outstanding
+                arm("timeout")
+                n0 = len(ncp.log)
+                tk = asyncio.ensure_future(app._watchdog_feed())
+                await asyncio.sleep(0.5)
+                tk.cancel()
+                exc = ""
+                try:
+                    await tk
+                except BaseException as e:  # noqa
+                    exc = type(e).__name__
+                trace.append({"a": "cancelled", "exc": exc, "cmds": [x["name"] for x in ncp.log[n0:]]})
+                continue
             if o == "cb":
                 # the NCP sends frames on its own between two feeds
                 t_ = ncp.t
@@ -164,6 +178,12 @@ def run(ctx: Ctx):
             continue
         for ver in ("v4", "later"):
             jobs.append((ver, 0, list(seq) + ["timeout", "cb", "timeout", "timeout", "timeout", "timeout"], False))
+    # feeds whose caller is cancelled mid-way, between failures and successes
+    for seq in itertools.product(("timeout", "ezsperr", "cancel", "ok"), repeat=5 if ctx.quick else 7):
+        if "cancel" not in seq or seq.count("cancel") > 3 or seq.count("ok") > 1:
+            continue
+        for ver in ("v4", "later"):
+            jobs.append((ver, 0, list(seq) + ["timeout", "cancel", "timeout", "timeout", "timeout", "timeout"], False))
     # firmware whose counter reads carry fewer / more values than the host has counter types (the reply is an open-ended list)
     for nc in (1, 40, 43, 60):
         for seq in itertools.product(("ok", "timeout", "ezsperr"), repeat=4 if ctx.quick else 6):
